@@ -505,11 +505,15 @@ func (r *Report) readerHistory(g *gen.G, cf *CasesFile, dir string) {
 				// the entry points without per-call options: the instance's own configuration applies
 				n0 := fu.UnserializeCallCount()
 				var err error
+				cfgBefore := rOptSnapshot(rd.Options)
 				if g.Chance(0.5) {
 					_, err = rd.ParseStream(bytes.NewReader([]byte("{}")))
 				} else {
 					_, err = rd.ParseFile(inPath)
 					r.Count("reader:call-plain-file")
+				}
+				if cfgAfter := rOptSnapshot(rd.Options); cfgAfter != cfgBefore {
+					r.Fail(Failure{What: "a parse changed the configuration of the reader it was called on", Detail: fmt.Sprintf("before %s, after %s", cfgBefore, cfgAfter), Input: map[string]any{"history": desc, "on": i}})
 				}
 				eff := []string{"-", "", "-"}
 				if err == nil && fu.UnserializeCallCount() > n0 {
